@@ -79,3 +79,52 @@ def modelStatus (b : BlState) : String :=
     if (waiterRes b i).isSome then s!"{i}:done" else s!"{i}:blocked"))
 
 end DBlock
+
+/-! ### the free-running part (`bstorm`): waiters, publishers and cancellations at the same time -/
+namespace DBlock
+open Klev Klev.Proto
+
+structure StormState where
+  initial : Int := 0
+  total : Int := 0
+  published : List Msg := []
+  settled : List String := []
+deriving Inhabited
+
+/-- What one waiter returned, judged without knowing the schedule: it must be an answer Consume /
+ConsumeByKey gives in *some* state the log went through (no deletes happen in a storm, so those
+states are the prefixes of the published sequence from the initial NextOffset on). -/
+def judgeRet (s : StormState) (idx : Nat) (kind : String) (off max : Int) (canc : Bool) (phase : String)
+    (impl : List String) : List String :=
+  let wasBlockedAtSettle := (s.settled[idx]?.map (·.endsWith ":blocked")).getD false
+  match impl with
+  | ["blocked"] => ["NeverReturned"]
+  | ["err", "ctx"] => if canc then [] else ["SpuriousCtxError"]
+  | ["err", "notifyclosed"] => if phase == "closed" then [] else ["SpuriousClosedError"]
+  | ["err", "invalidoffset"] =>
+    -- only an offset beyond NextOffset (at that moment) is invalid: it must at least be beyond the initial one
+    if kind == "cons" && off > s.initial then [] else ["SpuriousFailure"]
+  | "err" :: _ => if phase == "closed" then [] else ["SpuriousFailure"]
+  | "ok" :: rest =>
+    match pCons rest with
+    | none => ["Unparsed"]
+    | some (nxt, ms) =>
+      let content := ms.all (fun m => s.published.contains m)
+      let start : Int := if off < 0 then (if off == -1 then nxt else 0) else off
+      -- messages come in offset order from the cursor on, without holes for Consume (nothing is ever deleted here)
+      let ordered := (ms.zip (ms.drop 1)).all (fun (a, b) => decide (a.off < b.off))
+      let consec := kind != "cons" || (ms.zip (List.range ms.length)).all (fun (m, i) => m.off == start + i)
+      let count := decide ((ms.length : Int) ≤ max)
+      let nxtOK := if ms.isEmpty then decide (s.initial ≤ nxt) && decide (nxt ≤ s.total)
+                   else (match ms.getLast? with | some m => nxt == m.off + 1 | none => true)
+      -- an empty answer of Consume means "caught up": only at the offset asked for
+      let emptyOK := !(ms.isEmpty && kind == "cons" && off ≥ 0 && nxt != off)
+      -- below the NextOffset of the start there is always something for Consume
+      let immediate := !(kind == "cons" && off ≥ 0 && off < s.initial && ms.isEmpty)
+      (if content then [] else ["Content"]) ++ (if ordered && consec then [] else ["Order"]) ++
+      (if count then [] else ["MaxCount"]) ++ (if nxtOK then [] else ["NextOffset"]) ++
+      (if emptyOK then [] else ["EmptyAnswer"]) ++ (if immediate then [] else ["NotImmediate"]) ++
+      (if wasBlockedAtSettle && off < s.total && !canc then ["LostWakeup"] else [])
+  | _ => ["Unparsed"]
+
+end DBlock
